@@ -1257,6 +1257,13 @@ func c10DecryptMp4ff(initRaw, segRaw []byte, key []byte) (*hx.Seg, []byte, error
 	if err != nil {
 		return nil, nil, err
 	}
+	// (mp4ff guesses the per-sample IV size when it decodes a segment without its init segment; re-read the senc
+	// boxes with the size the served init declares)
+	if len(di.TrackInfos) > 0 && di.TrackInfos[0].Sinf != nil && di.TrackInfos[0].Sinf.Schi != nil && di.TrackInfos[0].Sinf.Schi.Tenc != nil {
+		if err := hx.ReparseSencFrags(sg.Mp4.Fragments, segRaw, di.TrackInfos[0].Sinf.Schi.Tenc.DefaultPerSampleIVSize); err != nil {
+			return nil, nil, fmt.Errorf("senc: %w", err)
+		}
+	}
 	if err := mp4.DecryptSegment(sg.Mp4, di, key); err != nil {
 		return nil, nil, fmt.Errorf("DecryptSegment: %w", err)
 	}
